@@ -3,6 +3,8 @@
      CFG <fixed|orig> ; <a> <b> <i> <cb 0|1> <op>* ; ...     set the configuration
          ops:  C   S<m>   R   N   D
      RUN t t t ...        -> "RUN {json: labels, outcome}"      (entries that cannot move are skipped)
+     BCFG ; B <app> <r1,r2,..> <bop>* ; R <a> <b> <i> <op>* ; ...   broadcast configuration (bops: C S<m> R D)
+     BRUN p p p ...       -> "BRUN {json: labels, outcome}"     (schedule of party indices, Net/Bcast.v)
      EXPLORE <maxstates>  -> "OUTCOME {json outcome} | t t t ..." for every quiescent outcome
                              (with one witness schedule), then "STATS states transitions complete"
    Only conversion nat<->int, printing and the graph search live here; stepl,
@@ -75,6 +77,47 @@ let label_key = function
   | LCallRecv (t, _) | LCallLost t -> jnat t
   | _ -> "null"
 
+(* ---- broadcast endpoints (Net/Bcast.v) *)
+let parse_bop s =
+  match s.[0] with
+  | 'C' -> BConnect
+  | 'S' -> BSend (nat_of_int (int_of_string (String.sub s 1 (String.length s - 1))))
+  | 'R' -> BRecv
+  | 'D' -> BClose
+  | _ -> failwith ("bad bop " ^ s)
+
+(* BCFG ; B <app> <r1,r2,..> <bop>* ; R <a> <b> <i> <op>* ; ... *)
+let parse_bcfg line =
+  match String.split_on_char ';' line with
+  | _ :: ps ->
+      let one s =
+        match words s with
+        | "B" :: a :: rs :: ops ->
+            CB (nat_of_int (int_of_string a),
+                List.map (fun x -> nat_of_int (int_of_string x)) (List.filter (fun x -> x <> "") (String.split_on_char ',' rs)),
+                List.map parse_bop ops)
+        | "R" :: a :: b :: i :: ops ->
+            CRaw (((nat_of_int (int_of_string a), nat_of_int (int_of_string b)), nat_of_int (int_of_string i)),
+                  List.map parse_op ops)
+        | _ -> failwith "bad party"
+      in
+      List.map one (List.filter (fun s -> words s <> []) ps)
+  | [] -> failwith "bad bcfg"
+
+let jbres = function
+  | BOk -> "\"ok\""
+  | BConnErr -> "\"connerr\""
+  | BMsg (f, m) -> Printf.sprintf "[\"bmsg\",%d,%d]" (int_of_nat f) (int_of_nat m)
+
+let jboutcome s =
+  let (((ps, q), op), rm) = bobserve s in
+  let jp ((bout, left), out) =
+    Printf.sprintf "{\"bres\":%s,\"left\":%d,\"res\":%s}" (jlist jbres bout) (int_of_nat left) (jlist jres out)
+  in
+  Printf.sprintf "{\"parties\":%s,\"queues\":%s,\"open\":%s,\"rem\":%s}" (jlist jp ps)
+    (jlist (fun (k, l) -> "[" ^ jkey k ^ "," ^ jlist jnat l ^ "]") q)
+    (jlist jkey op) (jlist jkey rm)
+
 let nthreads s = List.length s.s_th
 
 (* is thread t parked in a poll loop whose condition is false in s?  (running t alone
@@ -144,6 +187,7 @@ let explore v cfg maxstates =
 
 let () =
   let cfg = ref (Fixed, []) in
+  let bcfg = ref [] in
   try
     while true do
       let line = input_line stdin in
@@ -156,6 +200,11 @@ let () =
             (jlist (fun l -> "\"" ^ jlabel l ^ "\"") ls)
             (jlist label_key ls) (joutcome s)
             (quiescent v (erase s))
+      | "BCFG" :: _ -> bcfg := parse_bcfg line
+      | "BRUN" :: sch ->
+          let ls, s = brun_labels (binit !bcfg) (List.map (fun x -> nat_of_int (int_of_string x)) sch) in
+          Printf.printf "BRUN {\"labels\":%s,\"outcome\":%s}\n"
+            (jlist (fun l -> "\"" ^ jlabel l ^ "\"") ls) (jboutcome s)
       | "EXPLORE" :: m :: _ ->
           let v, c = !cfg in
           explore v c (int_of_string m)
